@@ -423,12 +423,18 @@ def m_result_top(I, st, args, dest_ty, *r):
     ok, err = _result_inner(dest_ty)
     pv = IntV.top(ok, d, exact=True) if M.int_type(ok) else TopV(ok, d)
     # reference arguments may be written (read_line appends to the buffer)
+    name = ((r[3] if len(r) > 3 and isinstance(r[3], dict) else {}) or {}).get("def") or ""
+    reads_input = name.endswith(("read_line", "read_to_string"))
     for a in args:
         if a.kind == "ref":
             try:
                 cur = I.read_loc(st, a.loc)
                 if cur.kind != "ref":
-                    I.write_loc(st, a.loc, I.havoc_value(cur, d))
+                    hv = I.havoc_value(cur, d)
+                    if reads_input and hv.kind == "top" and "String" in str(getattr(cur, "ty", "")):
+                        # what the input delivers is arbitrary (stated assumption): any length is attainable
+                        hv = TopV(hv.ty, hv.d, tag=("input", "stdin"))
+                    I.write_loc(st, a.loc, hv)
             except Unsupported:
                 pass
     return EnumV("Result", None, (), 2, d, {0: (pv,), 1: (TopV(err, d),)})
